@@ -1,9 +1,9 @@
 #!/bin/bash
-# usage: tools/run_seeds.sh C14-1 C14-2 ...  -> .build/seed_<id>.log and a summary line each in .build/seeds_summary6.txt
+# usage: tools/run_seeds.sh C14-1 C14-2 ...  -> .build/seed_<id>.log and a summary line each in .build/seeds_summary7.txt
 for s in "$@"; do
   P=${s%-*}
   /verif/tools/try_seed_isolated.sh $P /verif/seeded/$s/patch.diff > /verif/.build/seed_$s.log 2>&1
-  echo "$s: $(grep -E '^\[C|^VIOLATION|try_seed' /verif/.build/seed_$s.log | cut -c1-170 | tr '\n' ' ')" >> /verif/.build/seeds_summary6.txt
+  echo "$s: $(grep -E '^\[C|^VIOLATION|try_seed' /verif/.build/seed_$s.log | cut -c1-170 | tr '\n' ' ')" >> /verif/.build/seeds_summary7.txt
   cp /verif/replays/$P-quick-1.json /verif/.build/seed_$s.replay.json 2>/dev/null
 done
-echo ALLDONE >> /verif/.build/seeds_summary6.txt
+echo ALLDONE >> /verif/.build/seeds_summary7.txt
